@@ -12,6 +12,7 @@ use refpeg::corpus::{Case, Tier};
 use refpeg::interp::Options;
 use serde_json::json;
 use std::collections::BTreeMap;
+mod bounded;
 use std::sync::atomic::{AtomicU64, Ordering};
 use std::sync::{Arc, Mutex};
 
@@ -99,6 +100,7 @@ pub fn shard_main(prop: &str, registry: &[Entry]) {
     let max_events_2 = if tier == Tier::Quick { 6usize } else { 7usize };
     let mut transitions = 0u64;
     let max_events_3 = 4usize;
+    let (mut bounded_groups, mut bounded_schedules, mut capped_groups, mut bounded_samples) = (0u64, 0u64, 0u64, 0usize);
     for (cid, entry) in &reg {
         let case = &corpus[*cid];
         if case.family == "pure/memo-rare-hit" {
@@ -153,7 +155,36 @@ pub fn shard_main(prop: &str, registry: &[Entry]) {
                 pairs.push(vec![small[0], small[0], small[1]]);
             }
         }
-        for p in pairs {
+        // longer parses (left-recursive growth, several cache hits): every schedule with at most `bound` preemptions
+        let bound = if tier == Tier::Quick { 2usize } else { 3usize };
+        let (lo, hi) = (max_events_2 + 1, if tier == Tier::Quick { 40usize } else { 64usize });
+        let bounded_budget = if tier == Tier::Quick { 3 } else { 6 };
+        let mut plan: Vec<(Vec<usize>, Option<usize>)> = pairs.into_iter().map(|p| (p, None)).collect();
+        let long: Vec<usize> = (0..ev.len()).filter(|a| ev[*a].1 >= lo && ev[*a].1 <= hi).collect();
+        let mut nb = 0;
+        // the longest one against itself, then colliding pairs, longest first
+        let mut by_len = long.clone();
+        by_len.sort_by_key(|a| std::cmp::Reverse(ev[*a].1));
+        if let Some(a) = by_len.first() {
+            plan.push((vec![*a, *a], Some(bound)));
+            nb += 1;
+        }
+        'b: for a in &by_len {
+            for b in &by_len {
+                if a != b && ev[*a].0.chars().next() == ev[*b].0.chars().next() && nb < bounded_budget {
+                    plan.push((vec![*a, *b], Some(bound)));
+                    nb += 1;
+                    if nb >= bounded_budget {
+                        break 'b;
+                    }
+                }
+            }
+        }
+        // a long parse next to a short one of the same grammar (enters and leaves the same rules quickly)
+        if let (Some(a), Some(b)) = (by_len.first(), (0..ev.len()).find(|b| ev[*b].1 >= 3 && ev[*b].1 < lo)) {
+            plan.push((vec![*a, b], Some(bound)));
+        }
+        for (p, pbound) in plan {
             groups += 1;
             let ins: Vec<String> = p.iter().map(|i| ev[*i].0.clone()).collect();
             let exps: Vec<(bool, String, Real)> = p.iter().map(|i| ev[*i].2.clone()).collect();
@@ -162,6 +193,8 @@ pub fn shard_main(prop: &str, registry: &[Entry]) {
             let bad: Arc<Mutex<Option<(usize, String)>>> = Arc::new(Mutex::new(None));
             let outcomes: Arc<Mutex<std::collections::BTreeSet<String>>> = Arc::new(Mutex::new(Default::default()));
             let (c2, b2, o2, ins2, exps2) = (count.clone(), bad.clone(), outcomes.clone(), ins.clone(), exps.clone());
+            let capped = Arc::new(std::sync::atomic::AtomicBool::new(false));
+            let capped2 = capped.clone();
             let sdir = std::env::temp_dir().join(format!("verif-c20-{}-{}", std::process::id(), groups));
             let _ = std::fs::remove_dir_all(&sdir);
             std::fs::create_dir_all(&sdir).unwrap();
@@ -170,7 +203,10 @@ pub fn shard_main(prop: &str, registry: &[Entry]) {
             config.silence_warnings = true;
             hrt::real::IN_SCHEDULER.store(true, Ordering::Relaxed);
             let res = std::panic::catch_unwind(std::panic::AssertUnwindSafe(|| {
-                let scheduler = shuttle::scheduler::DfsScheduler::new(None, false);
+                let scheduler: Box<dyn shuttle::scheduler::Scheduler + Send> = match pbound {
+                    None => Box::new(shuttle::scheduler::DfsScheduler::new(None, false)),
+                    Some(b) => Box::new(bounded::BoundedDfs::new(b, 3_000_000, capped2.clone())),
+                };
                 let runner = shuttle::Runner::new(scheduler, config);
                 runner.run(move || {
                     let res = run_threads(f, &ins2);
@@ -195,8 +231,19 @@ pub fn shard_main(prop: &str, registry: &[Entry]) {
             for o in outcomes.lock().unwrap().iter() {
                 distinct.insert(format!("{cid}|{o}"));
             }
-            if samples.len() < 6 {
-                samples.push(json!({"grammar": case.text, "threads": ins, "events_per_thread": p.iter().map(|i| ev[*i].1).collect::<Vec<_>>(), "schedules": n}));
+            if pbound.is_some() {
+                bounded_groups += 1;
+                bounded_schedules += n;
+                if capped.load(Ordering::Relaxed) {
+                    capped_groups += 1;
+                }
+            }
+            if samples.len() < 6 || (pbound.is_some() && bounded_samples < 3) {
+                if pbound.is_some() {
+                    bounded_samples += 1;
+                }
+                samples.push(json!({"grammar": case.text, "threads": ins, "events_per_thread": p.iter().map(|i| ev[*i].1).collect::<Vec<_>>(), "schedules": n,
+                    "exploration": match pbound { None => "all interleavings".to_string(), Some(b) => format!("all interleavings with at most {b} preemptions") }}));
             }
             if let Err(pn) = res {
                 violations += 1;
@@ -210,7 +257,8 @@ pub fn shard_main(prop: &str, registry: &[Entry]) {
         }
     }
     emit(json!({"k":"stats","schedules": schedules_total, "transitions": transitions, "evaluations": evaluations, "violations": violations, "groups": groups,
-        "distinct_outcomes": distinct.len(), "samples": samples}));
+        "distinct_outcomes": distinct.len(), "samples": samples,
+        "preemption_bounded_groups": bounded_groups, "preemption_bounded_schedules": bounded_schedules, "preemption_bounded_groups_capped": capped_groups}));
 }
 
 fn run_threads(f: fn(&str, Mode) -> Real, inputs: &[String]) -> Vec<Real> {
